@@ -507,6 +507,25 @@ func (k *kvRunner) sweep() {
 	for _, t := range kvListable {
 		k.checkList(t, false, "sweep-list")
 	}
+	if k.backend == world.File {
+		// loads only (never a store or remove): IDs that were never stored but that a key construction
+		// which joins the ID onto a directory would resolve to an entry that exists - of another type or
+		// of the same one. IDs are opaque: every one of these is absent.
+		dirs := map[string]string{kvNodeInfo: "nodeinfo", kvNodeCreds: "nodecreds", kvRoots: "roots", kvToken: "serverledactivationtokens"}
+		for _, u := range kvTypes {
+			for id := range k.model[u] {
+				if len(id) > 60 {
+					continue
+				}
+				for _, t := range kvTypes {
+					k.checkLoad(t, "../"+dirs[u]+"/"+id, "sweep-load-path-like")
+				}
+				k.checkLoad(u, "./"+id, "sweep-load-path-like")
+				k.checkLoad(u, id+"/", "sweep-load-path-like")
+				k.checkLoad(u, "x/../"+id, "sweep-load-path-like")
+			}
+		}
+	}
 	if k.backend == world.StoreOnce {
 		for _, n := range []string{"n1", "n2", "n3"} {
 			k.checkByNode(n, "sweep-loadbynodeid")
@@ -608,6 +627,41 @@ func (k *kvRunner) step(i int, op kvOp) {
 			}
 		}
 		k.probe(id)
+	case "remove-donectx", "store-donectx":
+		// a call whose context is already cancelled: nil means the operation took effect, an error means
+		// nothing changed - a back end must not answer one thing and do the other
+		dctx, cancel := context.WithCancel(k.ctx)
+		cancel()
+		_, present := k.model[op.Type][id]
+		if op.Op == "remove-donectx" {
+			err, ok := k.call("Remove", func() error { return k.st.Remove(dctx, kvBlank(op.Type, id)) })
+			if !ok {
+				return
+			}
+			if err == nil {
+				delete(k.model[op.Type], id)
+				k.count("done-context-call-returned-nil")
+			} else {
+				k.count("done-context-call-returned-error")
+			}
+		} else {
+			payload := fmt.Sprintf("d%d", i)
+			err, ok := k.call("Store", func() error { return k.st.Store(dctx, kvBuild(op.Type, id, payload, "")) })
+			if !ok {
+				return
+			}
+			if err == nil {
+				if k.backend == world.StoreOnce && op.Type == kvNodeInfo && present {
+					k.fail("storeonce-overwrite-accepted", fmt.Sprintf("store-once back end accepted a second Store of node record %q (context already done)", kvShort(id)))
+					return
+				}
+				k.model[op.Type][id] = kvVal{Payload: payload}
+				k.count("done-context-call-returned-nil")
+			} else {
+				k.count("done-context-call-returned-error")
+			}
+		}
+		k.probe(id)
 	case "list":
 		k.checkList(op.Type, op.NilArg, "list")
 	case "bynode":
@@ -680,6 +734,12 @@ func kvGenOps(rng *rand.Rand, backend string, n int) []kvOp {
 			ops = append(ops, kvOp{Op: "load", Type: t, ID: id})
 		case w < 68:
 			t, id := pickKey(rng.Intn(2) == 0)
+			if rng.Intn(5) == 0 {
+				// the caller's context is already done: whatever the back end answers, its answer and its
+				// contents must agree (presence unknown to the generator from here on; stale entries are tolerated)
+				ops = append(ops, kvOp{Op: []string{"remove-donectx", "remove-donectx", "store-donectx"}[rng.Intn(3)], Type: t, ID: id})
+				break
+			}
 			ops = append(ops, kvOp{Op: "remove", Type: t, ID: id})
 			delete(present, t+"|"+id)
 		case w < 80:
